@@ -34,6 +34,7 @@ func init() {
 		return m
 	}
 	vtModels["tcpclose"] = func(cfg json.RawMessage) vtModel { return newTCPCloseModel(cfg) }
+	vtModels["dialclose"] = func(cfg json.RawMessage) vtModel { return newDialModel(cfg) }
 	csScenarios["agent-close-race"] = func() zzmc.Scenario { return c08closeRace(false) }
 	csScenarios["agent-close-race-handler"] = func() zzmc.Scenario { return c08closeRace(true) }
 }
@@ -505,6 +506,11 @@ func checkC08(c *runCtx) {
 	// a passive ICE-TCP candidate (TCPMux) whose peer stops reading: writes block inside the agent's loop
 	vtSearch(c, p, vtSpec{Name: "passive TCP candidate, peer stops reading, close at every position", Model: "tcpclose",
 		Cfg: gatherCfg{Ifaces: gIfacesBasic, NetTypes: []string{"tcp4"}, CandTypes: []string{"host"}, TCPMux: "10.0.0.1:7001", Depth: depth + 2}, Deadline: dl})
+	// the blocking Dial / Accept themselves: connect, cancel the caller's context or close, in every order
+	for _, role := range []string{"controlling", "controlled"} {
+		vtSearch(c, p, vtSpec{Name: fmt.Sprintf("a caller blocked in Dial / Accept (%s), all sequences of length <= %d", role, depth+3), Model: "dialclose",
+			Cfg: soloCfg{Role: role, Locals: 1, Remotes: 1, NoStart: true, Depth: depth + 3}, Deadline: dl})
+	}
 	if os.Getenv("VERIF_VARIANT") == "instr" {
 		b := 2
 		if !c.quick() {
@@ -689,4 +695,199 @@ func (m *tcpCloseModel) Close() {
 		_ = m.client.Close()
 	}
 	m.gatherWorld.Close()
+}
+
+// ---------------------------------------------------------------- a caller blocked in Dial / Accept
+
+// dialModel: one real agent whose application calls the blocking Dial (controlling) or Accept (controlled) on a
+// goroutine of its own; the scripted peer, the clock-free ticks, the cancellation of the caller's context and
+// Close / GracefulClose are the events. The call returns exactly when the first of {connected, cancelled, closed}
+// has happened, and with the result that belongs to it.
+type dialModel struct {
+	*soloWorld
+	depth     int
+	cancel    context.CancelFunc
+	ret       chan struct{}
+	conn      *Conn
+	err       error
+	first     string // "", "connect", "cancel", "close"
+	cancelled bool
+	closed    bool
+}
+
+func newDialModel(raw json.RawMessage) *dialModel {
+	m := &dialModel{soloWorld: newSoloWorld(raw), ret: make(chan struct{})}
+	ctx, cancel := context.WithCancel(context.Background())
+	m.cancel = cancel
+	a := m.x.agent
+	go func() {
+		defer close(m.ret)
+		if m.cfg.Role == "controlling" {
+			m.conn, m.err = a.Dial(ctx, m.peerUfrag, m.peerPwd)
+		} else {
+			m.conn, m.err = a.Accept(ctx, m.peerUfrag, m.peerPwd)
+		}
+	}()
+	synctest.Wait()
+	m.cmu.Lock()
+	m.x.contact = m.contact
+	m.cmu.Unlock()
+	if m.x.contact == nil {
+		panic("hook H1 did not hand over the contact closure")
+	}
+
+	return m
+}
+
+func (m *dialModel) returned() bool {
+	select {
+	case <-m.ret:
+		return true
+	default:
+		return false
+	}
+}
+
+func (m *dialModel) Enabled() []string {
+	if m.closed || (m.cfg.Depth > 0 && m.depth >= m.cfg.Depth) {
+		return nil
+	}
+	evs := []string{"tick", "check"}
+	if len(m.pendingOut()) > 0 {
+		evs = append(evs, "answer")
+	}
+	if !m.cancelled {
+		evs = append(evs, "cancel")
+	}
+
+	return append(evs, "restart", "close:api", "close:graceful")
+}
+
+func (m *dialModel) Apply(ev string) {
+	m.depth++
+	a := m.x.agent
+	l0, r0 := m.x.socks[0], m.remotes[0]
+	switch ev {
+	case "tick":
+		m.tick()
+	case "check":
+		m.inject(l0, r0.addr.String(), m.peerRequest(peerReqOpts{uc: !a.isControlling.Load(), nom: -1, prio: 0}))
+	case "answer":
+		for _, d := range m.pendingOut() {
+			if d.srcSock == l0.name && d.dst == r0.addr.String() {
+				m.removeInflight(d.seq)
+				m.inject(l0, r0.addr.String(), m.peerResponse(d.data, stun.ClassSuccessResponse, "", d.src))
+			}
+		}
+	case "cancel":
+		m.cancelled = true
+		m.cancel()
+	case "restart":
+		m.x.gen++
+		if err := a.Restart(fmt.Sprintf("ufragAAAAg%d", m.x.gen), fmt.Sprintf("pwdAAAAAAAAAAAAAAAAAAAAAAAg%d", m.x.gen)); err != nil {
+			m.problem("", "Restart: %v", err)
+		}
+		m.inflight = nil
+		m.x.socks, m.x.cands = nil, nil
+		for i := 0; i < m.cfg.Locals; i++ {
+			m.addLocal(i)
+		}
+		_ = a.SetRemoteCredentials(m.peerUfrag, m.peerPwd)
+		for j := range m.remotes {
+			m.signalRemote(j)
+		}
+	case "close:api", "close:graceful":
+		var err error
+		if ev == "close:graceful" {
+			err = a.GracefulClose()
+		} else {
+			err = a.Close()
+		}
+		if err != nil {
+			m.problem("", "%s returned %v", ev, err)
+		}
+		m.closed = true
+	default:
+		panic("unknown event " + ev)
+	}
+	synctest.Wait()
+	connected := false
+	for _, st := range m.x.states {
+		connected = connected || st == ConnectionStateConnected
+	}
+	if m.first == "" {
+		switch {
+		case ev == "cancel":
+			m.first = "cancel"
+		case m.closed:
+			m.first = "close"
+		case connected:
+			m.first = "connect"
+		}
+	}
+	call := "Dial"
+	if m.cfg.Role != "controlling" {
+		call = "Accept"
+	}
+	if m.first == "" {
+		if m.returned() {
+			m.problem("", "%s returned (%v) although the agent has not connected, the context is live and the agent is open", call, m.err)
+		}
+
+		return
+	}
+	if !m.returned() {
+		m.problem("", "%s is still blocked after %s", call, m.first)
+
+		return
+	}
+	switch m.first {
+	case "connect":
+		if m.err != nil || m.conn == nil {
+			m.problem("", "%s returned (%v, %v) after the agent connected", call, m.conn != nil, m.err)
+		}
+	case "cancel":
+		if !errors.Is(m.err, ErrCanceledByCaller) || m.conn != nil {
+			m.problem("", "%s returned (%v, %v) after its context was cancelled", call, m.conn != nil, m.err)
+		}
+	case "close":
+		if !errors.Is(m.err, ErrClosed) || m.conn != nil {
+			m.problem("", "%s returned (%v, %v) after the agent was closed", call, m.conn != nil, m.err)
+		}
+	}
+	if m.closed {
+		if len(m.x.states) == 0 || m.x.states[len(m.x.states)-1] != ConnectionStateClosed {
+			m.problem("", "after %s the last notified state is not Closed (%v)", ev, m.x.states)
+		}
+		if m.conn != nil {
+			if _, err := m.conn.Write([]byte("late")); !errors.Is(err, ErrClosed) {
+				m.problem("", "after %s a Write on the connection %s had returned gave %v", ev, call, err)
+			}
+		}
+	}
+}
+
+func (m *dialModel) Key() (string, []int) {
+	k := m.agentState()
+	if m.closed {
+		k = "closed"
+	}
+
+	return fmt.Sprintf("%s first=%s ret=%v cancelled=%v out=%d", k, m.first, m.returned(), m.cancelled, len(m.pendingOut())), []int{m.depth}
+}
+
+func (m *dialModel) Problems() []vtProblem {
+	p := m.problems
+	m.problems = nil
+
+	return p
+}
+
+func (m *dialModel) Finish() []vtProblem { return nil }
+
+func (m *dialModel) Close() {
+	m.cancel()
+	if !m.closed {
+		m.soloWorld.Close()
+	}
 }
